@@ -68,6 +68,9 @@ let print_obs o =
       List.iteri (fun f (fo, objs) -> Printf.printf "F %d %d %d %s\n" f (i fo) (List.length objs) (hex objs)) fields
   | OENull e -> Printf.printf "ENULL %d\n" (n e)
   | OEGone e -> Printf.printf "EGONE %d\n" (n e)
+  | OCase (st, mvd) ->
+      Printf.printf "STORED %s\n" (if st = [] then "-" else String.concat "," (List.map (fun o -> hex [o]) st));
+      Printf.printf "MOVED%s\n" (String.concat "" (List.map (fun z -> " " ^ string_of_int (int_of_z z)) mvd))
   | OIter r -> Printf.printf "ITER %s\n" (zs r)
   | OCmp r -> Printf.printf "CMP %s\n" (String.concat " " (List.map (fun b -> if b then "1" else "0") r))
   | ONull (s, sz) -> Printf.printf "NULL %d %d\n" (n s) (i sz)
@@ -132,6 +135,7 @@ let parse_op params toks =
   | "eobserve" :: [e] -> OpEObserve (nat e)
   | "ecmpe" :: [a; b] -> OpECmpE (nat a, nat b)
   | "ecmpr" :: [e; s; i] -> OpECmpR (nat e, nat s, z i)
+  | "case" :: _ :: tc :: uc :: fc :: rv :: _ :: n :: vals -> OpCase (nat tc, nat uc, nat fc, rv = "1", nat n, List.map z_of_string vals)
   | "cmpvec" :: [a; b] -> OpCmpVec (nat a, nat b)
   | "cmpref" :: [a; i; b; j] -> OpCmpRef (nat a, z i, nat b, z j)
   | "observe" :: [s] -> OpObserve (nat s)
